@@ -32,7 +32,7 @@ namespace srun {
 
 struct World;
 
-struct Firing { int step; std::string action; std::vector<std::string> wells; double sim_time; };
+struct Firing { int step; std::string action; std::vector<std::string> wells; double sim_time; std::vector<std::string> shut_closed = {}; /* wells that stood SHUT with every connection shut in state `step` when the application began */ };
 
 struct Observer {
     virtual ~Observer() = default;
